@@ -90,6 +90,10 @@ def analyse(repo):
                     if toks[q] == "drop" and toks[q + 1] == "(" and toks[q + 2] == name and toks[q + 3] == ")":
                         end = q
                         break
+                    # handed over by value (`f(g)`, `f(a, g)`): the guard is the callee's from there on and gone when it returns
+                    if toks[q] == name and toks[q - 1] in ("(", ",") and toks[q + 1] in (")", ","):
+                        end = q
+                        break
                 # a re-binding of NAME (shadowing does not drop, but a move `let x = NAME;` is not a borrow either): keep to the block end
                 for q in range(e + 1, end - 4):
                     if toks[q] == "." and toks[q + 1] in ("borrow", "borrow_mut") and toks[q + 2] == "(" and toks[q + 3] == ")":
@@ -106,7 +110,7 @@ class Unit:
     props = ["C17", "C04"]
     title = "no second borrow of an interpreter RefCell while a guard of it is alive (lexical lifetime analysis)"
     timeout = 120
-    assumes = ["lexical lifetime of a guard bound by `let`: to the end of its block or an explicit `drop`; guards held in temporaries, struct fields or returned from functions, and borrows made by callees, are outside this analysis",
+    assumes = ["lexical lifetime of a guard bound by `let`: to the end of its block, an explicit `drop`, or the call it is handed to by value; guards held in temporaries, struct fields or returned from functions, and borrows made by callees, are outside this analysis",
                "macro arguments are evaluated (true whenever a logger admits the level: `mscript run` / `compile` install one)"]
 
     def run(self, repo, workdir, tier):
